@@ -774,6 +774,10 @@ def judge_real(c, r):
                     bad.append(("C09", "real backend %s: task %d failed at once (%s) while the other tasks take 50 ms each, yet %d of %d "
                                        "input items were taken (pre_dispatch=%s, n_jobs=%d, batch_size=1: at most %d expected)" % (
                                            c["backend"], min(tf), c.get("exc"), pulled, c["N"], c["pre_dispatch"], c["n_jobs"], bound)))
+            if c.get("slow") and k == 0 and call.get("workers_alive"):
+                bad.append(("C04", "real backend loky%s: when the call raised, %d of the %d worker processes that were running its "
+                                   "tasks (8 s each) were still alive: the abort had not stopped them" % (
+                                       " inside a with block" if c.get("with_block") else "", call["workers_alive"], call.get("workers_seen", 0))))
             if c.get("slow") and k == 0 and (call.get("latency") or 0) > 5.0:
                 bad.append(("C04", "real backend %s%s: the call raised only %.1f s after its task failed: it waited for the other "
                                    "dispatched tasks (%.0f s each) instead of stopping them" % (
